@@ -297,15 +297,18 @@ impl Pattern {
      * Implement csh-style alternate matches.  Pattern::new() has already
      * verified that the pattern is valid and the braces are correctly balanced.
      *
-     * The algorithm starts at the right-most opening brace and iteratively works
-     * backwards, expanding each alternate match and recursively calling Pattern
-     * to verify that there is a match.
+     * The algorithm expands the right-most opening brace and recursively calls
+     * Pattern on each result, which in turn expands the next brace to the left.
      */
     fn alternate_match(pattern: &str, pkg: &str) -> bool {
-        for (i, _) in
-            pattern.match_indices('{').collect::<Vec<_>>().iter().rev()
-        {
-            let (first, rest) = pattern.split_at(*i);
+        /*
+         * Only the right-most opening brace is expanded here: the first
+         * closing brace after it is guaranteed to be its partner.  Any
+         * braces to its left are handled by the recursive call once this
+         * group has been substituted.
+         */
+        if let Some(i) = pattern.rfind('{') {
+            let (first, rest) = pattern.split_at(i);
             /* This shouldn't fail as new() already verified, but... */
             let Some(n) = rest.find('}') else {
                 return false;
